@@ -207,7 +207,49 @@ func (ip *Interp) defaultAt(o *Obj, path []Sel, t types.Type) Val {
 	if o.Kind == ObjFresh {
 		return ip.zero(t)
 	}
-	return ip.entry(o.Name+PathKey(path), t)
+	return ip.entry(o.Name+PrettyPath(o.T, path), t)
+}
+
+// PrettyPath renders an access path with field names where the object's type is known.
+func PrettyPath(t types.Type, path []Sel) string {
+	var sb []byte
+	for _, s := range path {
+		switch {
+		case s.Field >= 0:
+			name := "f" + strconv.Itoa(s.Field)
+			if t != nil {
+				if st, ok := t.Underlying().(*types.Struct); ok && s.Field < st.NumFields() {
+					name = st.Field(s.Field).Name()
+					t = st.Field(s.Field).Type()
+				} else {
+					t = nil
+				}
+			}
+			sb = append(sb, '.')
+			sb = append(sb, name...)
+		default:
+			if s.Index >= 0 {
+				sb = append(sb, '[')
+				sb = append(sb, strconv.Itoa(s.Index)...)
+				sb = append(sb, ']')
+			} else {
+				sb = append(sb, '[')
+				sb = append(sb, s.Dyn.Lin.Key()...)
+				sb = append(sb, ']')
+			}
+			if t != nil {
+				switch u := t.Underlying().(type) {
+				case *types.Array:
+					t = u.Elem()
+				case *types.Slice:
+					t = u.Elem()
+				default:
+					t = nil
+				}
+			}
+		}
+	}
+	return string(sb)
 }
 
 func isAggregate(t types.Type) bool {
@@ -254,6 +296,14 @@ func (ip *Interp) Load(st *State, p *Ptr, t types.Type) Val {
 	k := locKey(p.Obj, p.Path)
 	if v, ok := st.Heap.get(k); ok {
 		return v
+	}
+	// an element of a dispatch table (array of functions / interfaces) of a
+	// pre-existing object is a slot, whether the index is constant or not
+	if n := len(p.Path); n > 0 && p.Path[n-1].Field < 0 && p.Path[n-1].Index >= 0 && p.Obj.Kind == ObjSym {
+		switch t.Underlying().(type) {
+		case *types.Signature, *types.Interface:
+			return &Slot{Table: Ptr{Obj: p.Obj, Path: p.Path[:n-1]}, Index: NewConst(64, uint64(p.Path[n-1].Index), true), T: t}
+		}
 	}
 	v := ip.defaultAt(p.Obj, p.Path, t)
 	if _, seen := ip.locs[k]; !seen {
@@ -395,7 +445,7 @@ func (ip *Interp) JoinVal(a, b Val) Val {
 	switch x := a.(type) {
 	case *Int:
 		if y, ok := b.(*Int); ok && x.W == y.W {
-			return ip.Ops.Join(x, y)
+			return ip.Ops.JoinGated(x, y, ip.gate)
 		}
 	case *Bool:
 		if y, ok := b.(*Bool); ok {
